@@ -104,8 +104,7 @@ theorem pendInv_sub {st st' : St} {g : Ghost} {p : Plan} {pend' : List ReqId} {o
   intro rid rec hr
   obtain ⟨h1, h2, h3, gop, h4, h5, h6, h7⟩ := hinv.pend rid rec (hsub rid rec hr)
   refine ⟨by omega, by omega, ?_, gop, ?_, h5, h6, ?_⟩
-  · simp only
-    rw [reqOpNext_old (by rw [hinv.stepNo]; exact h1)]
+  · rw [reqOpNext_old (by rw [hinv.stepNo]; exact h1)]
     exact h3
   · simp only [hops]; exact h4
   · rw [hheap _ h2]; exact h7
@@ -119,8 +118,7 @@ theorem pendInv_done {st st' : St} {g : Ghost} {p : Plan} {pend' : List ReqId} {
   intro rid rec hr
   obtain ⟨h1, h2, h3, gop2, h4, h5, h6, h7⟩ := hinv.pend rid rec (hsub rid rec hr)
   refine ⟨by omega, by omega, ?_, ?_⟩
-  · simp only
-    rw [reqOpNext_old (by rw [hinv.stepNo]; exact h1)]
+  · rw [reqOpNext_old (by rw [hinv.stepNo]; exact h1)]
     exact h3
   · simp only [hheap]
     by_cases hc : rec.cell = o
@@ -148,8 +146,7 @@ theorem pendInv_loop {cfg : Cfg} {st st' : St} {g : Ghost} {p : Plan} {o : Nat} 
   · -- a record that was there before
     obtain ⟨h1, h2, h3, gop2, h4, h5, h6, h7⟩ := hinv.pend rid rec (hP0 rid rec hr0)
     refine ⟨by omega, by omega, ?_, ?_⟩
-    · simp only
-      rw [reqOpNext_old (by rw [hinv.stepNo]; exact h1)]
+    · rw [reqOpNext_old (by rw [hinv.stepNo]; exact h1)]
       exact h3
     · simp only [hheap]
       by_cases hc : rec.cell = o
@@ -177,6 +174,16 @@ def StepOk (cfg : Cfg) (st : St) (g : Ghost) (op : Op) : Prop :=
   (specStep false cfg g (obsOf st) ⟨op, (step cfg st op).2, obsOf (step cfg st op).1⟩).1 = [] ∧
   Inv (step cfg st op).1 (specStep false cfg g (obsOf st) ⟨op, (step cfg st op).2, obsOf (step cfg st op).1⟩).2
 
+/-- Clock after the step. -/
+def nowAfter (st : St) : Op → Int
+  | .advance dt => st.now + dt
+  | _ => st.now
+
+/-- `last` (request id of the last delivered response) after the step. -/
+def lastAfter (st : St) : Op → Option ReqId
+  | .resp sel _ => resolve (Dict.keys st.pending) st.last sel
+  | _ => st.last
+
 theorem step_assemble {cfg : Cfg} {st st' : St} {g : Ghost} {op : Op} {out : Out} (p : Plan) (hinv : Inv st g)
     (hstepEq : step cfg st op = (st', out))
     (hp : planOf false cfg g (obsOf st) op out = p)
@@ -187,8 +194,8 @@ theorem step_assemble {cfg : Cfg} {st st' : St} {g : Ghost} {op : Op} {out : Out
     (hadd : pendingAddedOk g p (obsOf st) (obsOf st') = true)
     (hreq : requestOk cfg g p out = true)
     (hstat : statusOk op out (obsOf st') = true)
-    (hnow : st'.now = match op with | .advance dt => st.now + dt | _ => st.now)
-    (hlast : st'.last = match op with | .resp sel _ => resolve (Dict.keys st.pending) st.last sel | _ => st.last)
+    (hnow : st'.now = nowAfter st op)
+    (hlast : st'.last = lastAfter st op)
     (hstep : st'.stepNo = st.stepNo + 1)
     (hpend : PendInv st' p.ops (reqOpNext g p (Dict.keys st'.pending))) :
     StepOk cfg st g op := by
@@ -198,10 +205,10 @@ theorem step_assemble {cfg : Cfg} {st st' : St} {g : Ghost} {op : Op} {out : Out
   have hlive : LiveInv st'.db (liveNext g.live op st'.db) := live_of_shape hshape hinv.live
   have hinv' : Inv st' (ghostNext g p op (obsOf st) (obsOf st')) := by
     refine ⟨?_, ?_, ?_, ?_, ?_⟩
-    · simp only [ghostNext, hnow, hinv.now]
+    · simp only [ghostNext, hnow, hinv.now, nowAfter]
       cases op <;> rfl
     · simp only [ghostNext, hstep, hinv.stepNo]
-    · simp only [ghostNext, hlast, hinv.last, obsOf]
+    · simp only [ghostNext, hlast, hinv.last, obsOf, lastAfter]
       cases op <;> rfl
     · exact hlive
     · exact hpend
